@@ -211,6 +211,17 @@ def _job(job) -> List[Dict[str, Any]]:
     return out
 
 
+def closed_form_job(job) -> List[Dict[str, Any]]:
+    """The same comparison under another rule id, optionally restricted to some operations (used by other checks as the exact
+    small-game counterpart of an interval rule)."""
+    idx, tier, rule, ops = job
+    keep = {"predict_win": "R12.1", "predict_rank": "R12.2", "predict_draw": "R12.3"}
+    out = [d for d in _job((idx, tier)) if any(d["rule"] == keep[o] for o in ops)]
+    for d in out:
+        d["rule"] = rule
+    return out
+
+
 def _fractions_to_consts(t):
     """('const', Fraction) -> a quotient of integer constants (to_poly reads ints and floats)."""
     if isinstance(t, tuple):
